@@ -7,7 +7,8 @@ Spec:  Params.tla  (Resolve(preset, field) = declared-if-declared-else-parent; f
 Bind:  spec -> code.  The *declarations* of DefaultParams and of every class in pydrex.mock are read
        from the source with `ast` (plain and annotated assignments) and handed to TLC as a JSON
        constant (C19_DECL_FILE, scratch directory).  TLC emits the expected value of every
-       (class, field) and the expected outcome class / parsed value classes of every configuration;
+       (class, field) - presets published as instances, `X = DefaultParams(f=v)`, are read the same
+       way - and the expected outcome class / parsed value classes of every configuration;
        this module instantiates the classes / writes the TOML file and its stub inputs, runs the real
        code, projects the result to the abstract facts the spec talks about and compares.  No
        expectation is computed here: which keys exist, what is written for them, what they default
@@ -76,6 +77,17 @@ def extract_declarations(core_py, mock_py, root="DefaultParams"):
     classes, parent, declared, style, ignored = [root], {root: ""}, {root: {k: v[0] for k, v in root_decl.items()}}, {}, {}
     mock_tree = ast.parse(pathlib.Path(mock_py).read_text())
     for node in mock_tree.body:
+        if isinstance(node, ast.Assign) and len(node.targets) == 1 and isinstance(node.targets[0], ast.Name) and isinstance(node.value, ast.Call):
+            # a preset published as an instance:  Name = SomeParamsClass(field=value, ...)
+            f = node.value.func
+            fname = f.id if isinstance(f, ast.Name) else f.attr if isinstance(f, ast.Attribute) else None
+            if fname in classes and not node.value.args and all(kw.arg for kw in node.value.keywords):
+                name = node.targets[0].id
+                classes.append(name)
+                parent[name] = fname
+                declared[name] = {kw.arg: ast.unparse(kw.value) for kw in node.value.keywords if kw.arg in root_decl}
+                style[name] = ["instance"]
+            continue
         if not isinstance(node, ast.ClassDef):
             continue
         bases = [b for b in _base_names(node) if b in classes]
@@ -137,16 +149,17 @@ class Collector:
     """Groups mismatches by discrete signature; one chk.violation per signature, with all the
     instances (capped) in the replay object.  Observations (force 'I') never become violations."""
 
-    def __init__(self):
+    def __init__(self, cap=12):
         self.viol = {}
         self.obs = {}
+        self.cap = cap
 
     def add(self, force, sig, what, detail):
         key = json.dumps(sig, sort_keys=True)
         bucket = self.viol if force == "S" else self.obs
         e = bucket.setdefault(key, dict(sig=sig, what=what, n=0, instances=[]))
         e["n"] += 1
-        if len(e["instances"]) < 12:
+        if len(e["instances"]) < self.cap:
             e["instances"].append(detail)
 
     def merge(self, other):
@@ -154,7 +167,7 @@ class Collector:
             for key, e in theirs.items():
                 m = mine.setdefault(key, dict(sig=e["sig"], what=e["what"], n=0, instances=[]))
                 m["n"] += e["n"]
-                m["instances"] = (m["instances"] + e["instances"])[:12]
+                m["instances"] = (m["instances"] + e["instances"])[: self.cap]
 
     def flush(self, chk):
         for e in self.viol.values():
@@ -190,7 +203,8 @@ class ParamsReplayer:
     def instance(self, name):
         if name not in self._inst:
             try:
-                self._inst[name] = ("ok", self.cls(name)())
+                obj = self.cls(name)
+                self._inst[name] = ("ok", obj() if isinstance(obj, type) else obj)
             except Exception as ex:  # noqa: BLE001
                 self._inst[name] = ("raised", type(ex).__name__)
         return self._inst[name]
@@ -312,11 +326,12 @@ def run_params(chk, d, tier):
     chk.add_tlc("Params", res, f"{n_cls} classes x {n_f} fields (declarations read from the source with ast) + frozen/hash/round-trip cases of the root record; 7 lemmas")
     rep = ParamsReplayer(decl)
     # the quantifier is 'all presets in the mock module': the ast extraction must have found each of them
-    published = [n for n, o in vars(pydrex.mock).items() if isinstance(o, type) and issubclass(o, rep.cls(decl["root"])) and o.__module__ == "pydrex.mock"]
+    rootcls = rep.cls(decl["root"])
+    published = [n for n, o in vars(pydrex.mock).items() if (isinstance(o, type) and issubclass(o, rootcls) and o.__module__ == "pydrex.mock") or isinstance(o, rootcls)]
     missing = sorted(set(published) - set(decl["classes"]))
     if missing:
         raise MachineryError(f"presets not found by the ast extraction: {missing}")
-    col = Collector()
+    col = Collector(cap=400)
     for c in cases:
         rep.replay(c, col)
         if c["kind"] == "value":
@@ -542,19 +557,8 @@ class ConfigReplayer:
         replay = dict(kind="config", mode=mode, fault=case["fault"], toml=detail["toml"], expected_outcome=case["outcome"], got=outcome, message=detail.get("msg", ""))
         clean = True
         if outcome not in case["outcome"]:
-            clean = False
-            if "ok" in case["outcome"] and case["fault"] == "none":
-                fails.append((case, outcome, replay))  # spec: parses (or, undocumented types, ConfigError); attributed later
-            else:
-                lattice = case["fault"] == "none"
-                what = f"configuration that cannot satisfy {case['broken'] or case['fault']} -> {outcome}; spec: {case['outcome']}"
-                sig = dict(clause="invalid-config-not-rejected-with-ConfigError", fault="lattice" if lattice else case["fault"], got=outcome)
-                if lattice:
-                    sig["broken"] = sorted(case["broken"])
-                if "ok" in case["outcome"]:
-                    sig["clause"] = "undocumented-type-neither-parsed-nor-ConfigError"
-                col.add(case["oforce"], sig, what, replay)
-            return clean
+            fails.append((case, outcome, replay))  # attributed once every case has been run
+            return False
         if outcome != "ok":
             return clean
         for fact in case["post"]:
@@ -630,37 +634,64 @@ def _replay_chunk(bound):
     return col, fails, passing, outcomes
 
 
-def attribute_failures(fails, table, col):
-    """Valid configurations (spec: parses) that raised.  Causes are established by the minimal
-    elements of the lattice: a mode whose fully-populated configurations all fail, a key whose
-    single omission fails.  Every other failure containing an established cause with the same
-    exception is explained by it; what remains is reported by its minimal omitted set."""
+def _omitted(case, table):
+    """Optional keys the configuration leaves out (keys of a record field unknown to the spec are
+    never supplied: not an omission the lattice chose)."""
+    keys = [tuple(k) for k in table["keys"][case["mode"]]]
+    opt = [(t, k) for (t, k), bit in zip(keys, case["keys"]) if not bit]
+    return [(t, k) for (t, k) in opt if t != "parameters" or k in table["supplied"] or k in ("phase_assemblage", "phase_fractions", "initial_olivine_fabric")]
 
-    def omitted(case):
-        keys = [tuple(k) for k in table["keys"][case["mode"]]]
-        opt = [(t, k) for (t, k), bit in zip(keys, case["keys"]) if not bit]
-        # keys of a field unknown to the spec are never supplied: not an omission the lattice chose
-        return [(t, k) for (t, k) in opt if t != "parameters" or k in table["supplied"] or k in ("phase_assemblage", "phase_fractions", "initial_olivine_fabric")]
 
-    items = [(case, out, replay, omitted(case)) for case, out, replay in fails]
-    key_cause, mode_cause = {}, {}
-    for case, out, replay, om in items:
+def _exc(outcome):
+    """Outcome class -> name used in signatures ('other:TypeError' -> 'TypeError')."""
+    return outcome.split(":", 1)[1] if outcome.startswith("other:") else outcome
+
+
+def _lists(case):
+    asm = "+".join(str(p[1]) for p in case["asm"])
+    fr = "+".join(f"{n}/{d}" for n, d in case["fr"])
+    return f"{asm}:{fr}"
+
+
+def attribute_failures(fails, table, col, n_full=None):
+    """Configurations whose outcome class is not one the spec allows.
+
+    (a) spec: parses (fault = none, 'ok' allowed) but the code raised.  Causes are established by
+        the minimal elements of the lattice: an input mode all of whose fully populated
+        configurations fail, a key whose single omission fails.  Any other failure that contains
+        an established cause with the same exception is explained by it; what remains is reported
+        by its minimal omitted set.
+    (b) spec: must be rejected with ConfigError (single faults, lattice points whose effective
+        lists break a constraint) but the code parsed it or raised something else.  Explained when
+        the exception is the one already established for the input mode, reported otherwise.
+    n_full: mode -> number of fully populated must-parse configurations enumerated (to tell a mode
+    cause from a failure of particular lists / fabric letters)."""
+
+    valid = [(case, out, replay, _omitted(case, table)) for case, out, replay in fails if "ok" in case["outcome"] and case["fault"] == "none"]
+    invalid = [(case, out, replay) for case, out, replay in fails if not ("ok" in case["outcome"] and case["fault"] == "none")]
+    key_cause, mode_cause, full_fail = {}, {}, {}
+    for case, out, replay, om in valid:
         if len(om) == 0:
-            mode_cause.setdefault((case["mode"], out), []).append(replay)
-    for case, out, replay, om in items:
+            full_fail.setdefault((case["mode"], out), []).append((case, replay))
+    for (mode, out), lst in full_fail.items():
+        strict = [c for c, _ in lst if c["outcome"] == ["ok"]]
+        if n_full is None or (strict and len(strict) >= n_full.get(mode, 0)):
+            mode_cause[(mode, out)] = lst
+            col.add("S", dict(clause="documented-input-mode-rejected", mode=mode, exc=_exc(out)), f"no fully populated configuration in input mode {mode} parses: {out} ({lst[0][1]['message']})", lst[0][1])
+        else:
+            for c, replay in lst:
+                col.add("S", dict(clause="valid-config-rejected", omitted=[], lists=_lists(c), fabric=c["fab"][1], exc=_exc(out)), f"fully populated configuration with lists {_lists(c)}, fabric {c['fab'][1]} does not parse: {out} ({replay['message']})", replay)
+    for case, out, replay, om in valid:
         if len(om) == 1 and (case["mode"], out) not in mode_cause:
             key_cause.setdefault((om[0], out), []).append(replay)
-    for (mode, out), reps in mode_cause.items():
-        col.add("S", dict(clause="documented-input-mode-rejected", mode=mode, exc=out), f"fully populated configuration in input mode {mode} does not parse: {out} ({reps[0]['message']})", reps[0])
     for ((t, k), out), reps in key_cause.items():
-        col.add("S", dict(clause="optional-key-omitted", table=t, key=k, exc=out), f"configuration omitting only {t}.{k} does not parse: {out} ({reps[0]['message']})", reps[0])
+        col.add("S", dict(clause="optional-key-omitted", table=t, key=k, exc=_exc(out)), f"configuration omitting only {t}.{k} does not parse: {out} ({reps[0]['message']})", reps[0])
     rest = []
     n_explained = 0
-    for case, out, replay, om in items:
+    for case, out, replay, om in valid:
         if len(om) == 0 or (len(om) == 1 and (om[0], out) in key_cause):
             continue
-        causes = [k for k in om if (k, out) in key_cause]
-        if (case["mode"], out) in mode_cause or causes:
+        if (case["mode"], out) in mode_cause or any((k, out) in key_cause for k in om):
             n_explained += 1
             continue
         rest.append((case, out, replay, om))
@@ -673,10 +704,22 @@ def attribute_failures(fails, table, col):
         hdr = {t: bool(v) for t, v in case["hdr"].items()}
         col.add(
             "S",
-            dict(clause="valid-config-rejected", omitted=[f"{t}.{k}" for t, k in om] if len(om) <= 3 else f"{len(om)} keys", headers=hdr if len(om) > 3 else None, exc=out),
+            dict(clause="valid-config-rejected", omitted=[f"{t}.{k}" for t, k in om] if len(om) <= 3 else f"{len(om)} keys", headers=hdr if len(om) > 3 else None, exc=_exc(out)),
             f"configuration with the required inputs does not parse when {len(om)} optional keys are omitted: {out} ({replay['message']})",
             replay,
         )
+    for case, out, replay in invalid:
+        if (case["mode"], out) in mode_cause:
+            n_explained += 1
+            continue
+        lattice = case["fault"] == "none"
+        what = f"configuration that cannot satisfy {case['broken'] or case['fault']} -> {out}; spec: {case['outcome']}"
+        sig = dict(clause="invalid-config-not-rejected-with-ConfigError", fault="lattice" if lattice else case["fault"], got=_exc(out))
+        if lattice:
+            sig["broken"] = sorted(case["broken"])
+        if "ok" in case["outcome"]:
+            sig["clause"] = "undocumented-type-neither-parsed-nor-ConfigError"
+        col.add(case["oforce"], sig, what, replay)
     return n_explained
 
 
@@ -721,9 +764,13 @@ def run_config(chk, d, tier, decl_file):
         chk.count((case["mode"], tuple(case["keys"]), tuple(case["hdr"].values()), json.dumps([case["asm"], case["fr"], case["fab"]]), case["fault"]))
     chk.cov["config_replay_s"] = round(time.time() - t0, 1)
     chk.cov["config_replay_processes"] = nproc
-    n_expl = attribute_failures(fails, table, col)
+    n_full = {}
+    for c in cases:
+        if c["fault"] == "none" and c["outcome"] == ["ok"] and not _omitted(c, table):
+            n_full[c["mode"]] = n_full.get(c["mode"], 0) + 1
+    n_expl = attribute_failures(fails, table, col, n_full)
     chk.cov["config_outcomes"] = dict(sorted(outcomes.items()))
-    chk.cov["valid_configs_that_raised"] = dict(total=len(fails), explained_by_an_established_single_cause=n_expl)
+    chk.cov["outcome_mismatches"] = dict(total=len(fails), explained_by_an_established_mode_or_single_key_cause=n_expl)
     col.flush(chk)
     chk.sample(dict(kind="configuration", toml=rep.build(cases[len(cases) // 2]), expected_outcome=cases[len(cases) // 2]["outcome"]))
     fault_case = next(c for c in cases if c["fault"] == "sum-below-one")
@@ -776,7 +823,7 @@ def main(tier):
     return chk.finish(
         rule="Params: every (class, field) of DefaultParams and the pydrex.mock presets, distinct by pair, non-trivial when the class declares the field itself; "
         "Config: every configuration enumerated by TLC from Config.tla (optional-key subsets with <= MaxPresent present or <= MaxOmitted omitted, x table headers x input modes x phase-list shapes x fabric letters, plus every single fault), distinct by (mode, key vector, headers, lists, fabric, fault)",
-        exhaustive=True,
+        exhaustive=False,  # exhaustive over the stated bounds, not over all 2^26 key subsets
         trusted=["the documented configuration format as transcribed in Config.tla (data/specs/*.toml comments, DefaultParams field documentation)", "Python's ast module for reading class-body declarations"],
     )
 
@@ -799,9 +846,12 @@ def replay(obj):
         import pydrex.core
         import pydrex.mock
 
-        cls = getattr(pydrex.mock, inst["cls"], None) or getattr(pydrex.core, inst["cls"])
-        got = getattr(cls(), inst["field"])
-        print(f"{inst['cls']}().{inst['field']} = {got!r}; declared {inst['declared']} in {inst['declared_in']}")
-        return 0
+        obj = getattr(pydrex.mock, inst["cls"], None) or getattr(pydrex.core, inst["cls"])
+        obj = obj() if isinstance(obj, type) else obj
+        got = getattr(obj, inst["field"]) if inst["view"] == "attribute" else obj.as_dict()[inst["field"]]
+        ns = dict(vars(pydrex.core if inst["declared_in"] == "DefaultParams" else pydrex.mock))
+        same = _same(got, eval(inst["declared"], ns))  # noqa: S307
+        print(f"{inst['cls']}().{inst['field']} ({inst['view']}) = {got!r}; declared {inst['declared']} in {inst['declared_in']}: {'agrees' if same else 'DIFFERS'}")
+        return 0 if same else 1
     print("nothing executable recorded for this signature")
     return 0
